@@ -1,4 +1,56 @@
+import BobModel.Model.Jenkins
 import BobModel.Util.Proto
-open Lean Proto
-/-- stub driver of C20: replaced when the model of this property is built -/
-def main : IO Unit := runPure fun _ => err "unsupported"
+open Lean Proto Jenkins
+
+/-
+request : {"n":N, "nodes":[{"name":s,"recipe":s,"deps":[i..],"vdeps":[i..]}], "roots":[i..], "prefix":s, "iso":[b..]}
+          node i is the package step with (small) variant id i; "iso"[i] = isolate regex matches the package name of i
+reply   : {"dname":[s|null], "iname":[s|null], "abs":[[i..]..], "jobs":[{"name":s,"pkgs":[i..],"up":[s..]}] | null,
+           "order": "ok" | "cyclic" | "keyerror"}
+-/
+
+def natList (j : Json) (k : String) : List Nat :=
+  (getArr j k).map fun x => (x.getNat?.toOption).getD 0
+
+structure NodeJ where
+  name : Str
+  recipe : Str
+  deps : List Nat
+  vdeps : List Nat
+  iso : Bool
+
+instance : Inhabited NodeJ := ⟨⟨[], [], [], [], false⟩⟩
+
+def optStr (o : Option Str) : Json :=
+  match o with
+  | some s => Json.str (String.ofList s)
+  | none => Json.null
+
+def natArr (l : List Nat) : Json := Json.arr (l.map fun k => Json.num (JsonNumber.fromNat k)).toArray
+
+def main : IO Unit := runPure fun j =>
+  let nodes : Array NodeJ := ((getArr j "nodes").zip ((getArr j "iso") ++ List.replicate 100000 (Json.bool false))).toArray.map fun (nj, ij) =>
+    { name := (getStr nj "name").toList, recipe := (getStr nj "recipe").toList,
+      deps := natList nj "deps", vdeps := natList nj "vdeps",
+      iso := match ij with | .bool b => b | _ => false }
+  let n := nodes.size
+  let g : Graph := { deps := fun v => (nodes.getD v default).deps, vdeps := fun v => (nodes.getD v default).vdeps,
+                     pkgName := fun v => (nodes.getD v default).name, recipe := fun v => (nodes.getD v default).recipe }
+  let isoNames := (nodes.toList.filter (·.iso)).map (·.name)
+  let iso : Str → Bool := fun nm => isoNames.contains nm
+  let roots := natList j "roots"
+  let pfx := (getStr j "prefix").toList
+  let s := sanitizeSt g n iso roots
+  let pn := assign s (finalNames g s)
+  let vids := List.range n
+  let abs := vids.filterMap fun k => if s.v2j k = some k then some (natArr (s.job k).pkgs) else none
+  let jobs := genJobs g n pfx pn roots
+  let (jobsJ, order) : Json × String := match jobs with
+    | none => (Json.null, "keyerror")
+    | some js =>
+      (Json.arr (js.map fun jj => Json.mkObj [("name", Json.str (String.ofList jj.name)), ("pkgs", natArr jj.pkgs),
+          ("up", Json.arr (jj.up.map fun u => Json.str (String.ofList u)).toArray)]).toArray,
+       match buildOrder js with | some _ => "ok" | none => "cyclic")
+  Json.mkObj [("dname", Json.arr (vids.map fun v => optStr (displayName pfx pn v)).toArray),
+              ("iname", Json.arr (vids.map fun v => optStr (internalName pfx pn v)).toArray),
+              ("abs", Json.arr abs.toArray), ("jobs", jobsJ), ("order", Json.str order)]
